@@ -42,6 +42,7 @@
 #include <xercesc/internal/ReaderMgr.hpp>
 #include <xercesc/util/OutOfMemoryException.hpp>
 #include <xercesc/util/XMLResourceIdentifier.hpp>
+#include <xercesc/util/VerifHooks.hpp>
 
 namespace XERCES_CPP_NAMESPACE {
 
@@ -405,10 +406,12 @@ void ReaderMgr::cleanStackBackTo(const XMLSize_t readerNum)
         if (fReaderStack->empty())
             ThrowXMLwithMemMgr(RuntimeException, XMLExcepts::RdrMgr_ReaderIdNotFound, fMemoryManager);
 
+        VERIF_EV("Pop", "m,num,depth,how", (long long)(size_t)this, (long long)fCurReader->getReaderNum(), (long long)fReaderStack->size(), 2LL);
         delete fCurReaderData;
         fCurReaderData = fReaderStack->pop();
         fCurReader = fCurReaderData->getReader ();
     }
+    VERIF_EV("CleanTo", "m,num,depth", (long long)(size_t)this, (long long)readerNum, (long long)(fReaderStack ? fReaderStack->size() : 0));
 }
 
 
@@ -960,6 +963,7 @@ bool ReaderMgr::pushReaderAdoptEntity(     XMLReader* const        reader
                     // Oops, already there so delete reader and entity and
                     // return.
                     //
+                    VERIF_EV("Push", "m,r,num,ent,type,adopt,ok,depth", (long long)(size_t)this, (long long)(size_t)reader, (long long)reader->getReaderNum(), (long long)XMLString::hash(theName, 2147483647), (long long)reader->getType(), (long long)adoptEntity, 0LL, (long long)count);
                     delete reader;
 
                     if (adoptEntity)
@@ -992,12 +996,14 @@ bool ReaderMgr::pushReaderAdoptEntity(     XMLReader* const        reader
     //
     fCurReaderData = new (fMemoryManager) ReaderData(reader, entity, adoptEntity);
     fCurReader = reader;
+    VERIF_EV("Push", "m,r,num,ent,type,adopt,ok,depth", (long long)(size_t)this, (long long)(size_t)reader, (long long)reader->getReaderNum(), (long long)(entity ? (long long)XMLString::hash(entity->getName(), 2147483647) : -1LL), (long long)reader->getType(), (long long)adoptEntity, 1LL, (long long)fReaderStack->size());
 
     return true;
 }
 
 void ReaderMgr::reset()
 {
+    VERIF_EV("RdrReset", "m,depth", (long long)(size_t)this, (long long)((fReaderStack ? fReaderStack->size() : 0) + (fCurReaderData ? 1 : 0)));
     // Reset all of the flags
     fThrowEOE = false;
 
@@ -1136,6 +1142,7 @@ bool ReaderMgr::popReader()
     ReaderData* prevReaderData = fCurReaderData;
     const bool prevReaderThrowAtEnd = fCurReader->getThrowAtEnd();
     const XMLSize_t readerNum = fCurReader->getReaderNum();
+    VERIF_EV("Pop", "m,num,depth,how", (long long)(size_t)this, (long long)readerNum, (long long)fReaderStack->size(), (long long)((prevReaderData->getEntity() && (fThrowEOE || prevReaderThrowAtEnd)) ? 1 : 0));
 
     //
     //  Pop a new reader and entity off the stack.
@@ -1204,6 +1211,7 @@ bool ReaderMgr::popReader()
             return false;
 
         // Else pop again and try it one more time
+        VERIF_EV("Pop", "m,num,depth,how", (long long)(size_t)this, (long long)fCurReader->getReaderNum(), (long long)fReaderStack->size(), 3LL);
         delete fCurReaderData;
         fCurReaderData = fReaderStack->pop();
         fCurReader = fCurReaderData->getReader();
